@@ -138,4 +138,26 @@ def openPhys (ph : Phys) (bufsiz : Nat) : Except Err (List (Section × Trailer))
     | .ok r => .ok r.1
     | .error e => .error e
 
+/-! ### What a written classic table lists (executable hypothesis of `C02_table_lists`) -/
+
+/-- The in-use lines of a subsection as `(object number, entry)`, in file order. -/
+def flatEntries : Int → List TEntry → List (Int × Entry)
+  | _, [] => []
+  | objid, e :: es =>
+    if e.inuse then (objid, ⟨none, e.pos, e.gen⟩) :: flatEntries (objid + 1) es else flatEntries (objid + 1) es
+
+def flatSubs : List Sub → List (Int × Entry)
+  | [] => []
+  | sb :: rest => flatEntries (sb.start : Int) sb.entries ++ flatSubs rest
+
+def entsInt (ents : List (Nat × Entry)) : List (Int × Entry) := ents.map (fun p => ((p.1 : Int), p.2))
+
+def nodupKeysB : List (Int × Entry) → Bool
+  | [] => true
+  | p :: r => r.all (fun q => q.1 != p.1) && nodupKeysB r
+
+/-- Same `(number, entry)` pairs, in any order, every number once. -/
+def sameAssocB (a b : List (Int × Entry)) : Bool :=
+  a.all (fun p => b.contains p) && b.all (fun p => a.contains p) && nodupKeysB a && nodupKeysB b
+
 end PdfVerif.Xref
